@@ -526,6 +526,9 @@ def replica_walk(fx, exe, out_path, seed, records, profile=None):
                     break
             if b["post"]["act"] != a["post"]["act"] or b["post"]["res"] != a["post"]["res"]:
                 s = on_slot(0, [], "save")
+                if s is None:
+                    a = None
+                    break
                 b = on_slot(1, [], "load " + " ".join(map(str, s["buf"])))
                 total += 2
         if a is None or b is None:
